@@ -42,8 +42,34 @@ theorem getnext_eq {img : Img} (hw : WF img) (idx : Nat) (hidx : idx ≤ img.n) 
       | [] => (none, (img.n : Int))
       | j :: _ => (some (objAt img j), ((j + 1 : Nat) : Int))) := by
   unfold getnext
+  have hnn : ¬ ((idx : Int) < 0) := by omega
+  rw [if_neg hnn]
   exact getnextLoop_spec hw (img.n - idx) (img.slots.size + 1) idx (by omega)
     (by have : img.slots.size = img.n := rfl; omega)
+
+/-- a negative index is rejected (EINVAL), the index is returned unchanged -/
+theorem getnext_neg (img : Img) (idx : Int) (h : idx < 0) : getnext img idx = .ok (none, idx) := by
+  unfold getnext; rw [if_pos h]; rfl
+
+/-- an index at or behind the end of the table: ENOENT, nothing is read -/
+theorem getnext_beyond {img : Img} (hw : WF img) (idx : Int) (h : (img.n : Int) ≤ idx) :
+    getnext img idx = .ok (none, idx) := by
+  unfold getnext
+  have hnn : ¬ idx < 0 := by omega
+  rw [if_neg hnn]
+  unfold getnextLoop
+  have : ¬ idx < img.maxslots := by have := hw.loc.1; omega
+  rw [if_neg this]; rfl
+
+/-- **`getnext` is total in the index**: it never faults on a well-formed image, whatever `*idx` is -/
+theorem getnext_total {img : Img} (hw : WF img) (idx : Int) : ∃ r, getnext img idx = .ok r := by
+  by_cases h0 : idx < 0
+  · exact ⟨_, getnext_neg img idx h0⟩
+  · by_cases h1 : (img.n : Int) ≤ idx
+    · exact ⟨_, getnext_beyond hw idx h1⟩
+    · have hcast : idx = ((idx.toNat : Nat) : Int) := by omega
+      rw [hcast]
+      exact ⟨_, getnext_eq hw idx.toNat (by omega)⟩
 
 /-- a call that could not deliver the entry of slot `j` can be repeated from `j` -/
 theorem getnext_retry {img : Img} (hw : WF img) (idx : Nat) (hidx : idx ≤ img.n) (o : Obj) (idx' : Int)
@@ -201,19 +227,27 @@ theorem putstrfF_spec {img : Img} (hw : WF img) (plan : Plan) (name str md5 : By
 
 /-- constructor: a failed allocation of the handle leaves no block behind; with `memsize > 0` the
     region then holds the freshly initialised (empty, well-formed) table, so it can be attached later -/
-theorem newF_spec (plan : Plan) (memsize : Nat) :
+theorem newF_spec (plan : Plan) (memsize : Nat) (hsz : memsize < 2 ^ 31 * Qlibc.Generated.HarrLayout.sizeofSlot) :
     ((newF plan memsize).2.1 = .einval ∧ (newF plan memsize).1 = none ∧ (newF plan memsize).2.2 = []) ∨
     (∃ img, (newF plan memsize).1 = some img ∧ WF img ∧
       (((newF plan memsize).2.1 = .enomem ∧ plan 1 = true ∧ balance (newF plan memsize).2.2 = 0) ∨
        ((newF plan memsize).2.1 = .ok ∧ balance (newF plan memsize).2.2 = 1))) := by
   unfold newF
-  rcases hi : initMem memsize with _ | img
-  · exact Or.inl ⟨rfl, rfl, rfl⟩
-  · right
-    obtain ⟨rfl, hc⟩ := initMem_eq memsize img hi
+  cases hi : initMem memsize with
+  | none => exact Or.inl ⟨rfl, rfl, rfl⟩
+  | some img =>
+    right
+    obtain ⟨himg, hc⟩ := initMem_eq memsize hsz img hi
+    have hw : WF img := by rw [himg]; exact (wf_init' _ hc).1
     by_cases hp : plan 1 = true
-    · exact ⟨_, by simp [hp], (wf_init' _ hc).1, by simp [hp, balance]⟩
-    · exact ⟨_, by simp [hp], (wf_init' _ hc).1, by simp [hp, balance]⟩
+    · have e : newOf plan (some img) = (some img, .enomem, [.alloc false]) := by
+        simp only [newOf, hp, if_true]
+      rw [e]
+      exact ⟨img, rfl, hw, Or.inl ⟨rfl, hp, rfl⟩⟩
+    · have e : newOf plan (some img) = (some img, .ok, [.alloc true]) := by
+        simp only [newOf, hp, Bool.false_eq_true, if_false]
+      rw [e]
+      exact ⟨img, rfl, hw, Or.inr ⟨rfl, rfl⟩⟩
 
 theorem attachF_spec (plan : Plan) :
     ((attachF plan).1 = false ∧ plan 1 = true ∧ balance (attachF plan).2 = 0) ∨
@@ -223,11 +257,11 @@ theorem attachF_spec (plan : Plan) :
 
 /-! ### one call and whole histories -/
 
-/-- caller obligations of the overlay protocol: 16-byte digests, a cursor inside `0 … maxslots` -/
-def FOp.valid (n : Nat) : FOp → Prop
+/-- caller obligation of the overlay protocol: 16-byte digests (any cursor value may be passed to
+    `getnext`, any index to `remove_by_idx`) -/
+def FOp.valid (_n : Nat) : FOp → Prop
   | .put _ _ _ md5 => md5.length = 16
   | .putstrf _ _ _ md5 => md5.length = 16
-  | .next idx => 0 ≤ idx ∧ idx ≤ (n : Int)
   | _ => True
 
 /-- the mutation a completed call performs on the image (the operations of C07) -/
@@ -294,10 +328,7 @@ theorem stepF_spec {img : Img} (hw : WF img) (plan : Plan) (op : FOp) (hv : op.v
       refine ⟨img, _, _, by simp only [stepF, h2, Except.map]; rfl, hw, rfl, fun _ => rfl, fun _ => rfl, by simp [FOp.toOp], ?_⟩
       simp [FOut.handed, GetOut.handed, balance]
   | next idx =>
-    obtain ⟨h0, hle⟩ := hv
-    have hcast : idx = ((idx.toNat : Nat) : Int) := by omega
-    have hge := getnext_eq hw idx.toNat (by omega)
-    rw [← hcast] at hge
+    obtain ⟨r, hge⟩ := getnext_total hw idx
     rcases getnextF_spec plan img idx with ⟨f, h1, _⟩ | ⟨j, _, h2⟩ | ⟨ob, j, _, ⟨_, h2⟩ | ⟨_, _, h2⟩ | ⟨_, _, h2⟩⟩
     · rw [hge] at h1; cases h1
     all_goals
@@ -359,6 +390,6 @@ theorem runF_spec : ∀ (ops : List (Plan × FOp)) (img : Img), WF img → (∀ 
           exact List.Sublist.cons _ r5
         · have hen' : out.isEnomem = false := by simpa using hen
           simp only [hen', Bool.false_eq_true, if_false, List.singleton_append]
-          exact List.Sublist.cons₂ _ r5
+          exact List.Sublist.cons_cons _ r5
 
 end Qlibc.HashArr
